@@ -197,9 +197,11 @@ def _cmp_facts(op, a, b, truth):
                 if float_to_int_cast(node):
                     out.add('NZI:' + x)
     if op in ('>', '<') :
-        for x, l, o in ((pa, lb, op), (pb, la, FLIP[op])):
+        for x, l, o, node in ((pa, lb, op, a), (pb, la, FLIP[op], b)):
             if x and isinstance(l, (int, float)) and ((o == '>' and l >= 0) or (o == '<' and l <= 0)):
                 out.add('NZ:' + x)
+                if float_to_int_cast(node):
+                    out.add('NZI:' + x)      # the comparison is made on the truncated integer value
     # bounds: index op container.size() / literal
     ka = pa if pa else (str(la) if isinstance(la, int) else None)
     kb = pb if pb else (str(lb) if isinstance(lb, int) else None)
